@@ -35,7 +35,7 @@ PROPS = {
     "C15": ["contracts.c14_walkers", "contracts.c16_tracking", "contracts.c04_hashcons"],
     "C16": ["contracts.c16_tracking"],
     "C17": ["contracts.c17_smtlib_solver"],
-    "C18": ["contracts.c18_optimizer"],
+    "C18": ["contracts.c18_optimizer", "contracts.c18_loop", "contracts.c18_multi"],
     "C20": ["contracts.c14_walkers"],
 }
 
@@ -169,7 +169,8 @@ def main(argv=None):
             tasks = [tasks[i] for i in keep]
             names = [names[i] for i in keep]
         results = run_tasks(tasks, names, a.jobs, work)
-        extras = report.run_extras(a.prop, a.tier, seed, PROPS[a.prop])
+        # development aid: --only runs skip the bounded stand-ins unless asked for (never used by the registered commands)
+        extras = [] if (a.only and not os.environ.get("PYVC_EXTRAS_WITH_ONLY")) else report.run_extras(a.prop, a.tier, seed, PROPS[a.prop])
         os.unlink(pf)
     except BaseException:
         traceback.print_exc()
